@@ -150,7 +150,7 @@ def gen_partition(tape, n):
     for g in groups:
         if len(g) == 1:
             if tape.coin(0.5, "as-int"):
-                parts.append(g[0])
+                parts.append(g[0] - n if tape.coin(0.3, "negative-int") else g[0])  # -1 = last element, ...
             else:
                 parts.append({"slice": [g[0], g[0] + 1, None]})
             continue
@@ -223,6 +223,10 @@ def gen_case(tape, tier):
                            "show_progress": bool(tape.coin(0.15, "show-progress"))}}
         if output_fns:
             case["output_fns"] = output_fns
+        if not output_fns and any(isinstance(v, int) and v < 0 for p_ in parts for v in p_.values()) and tape.coin(0.5, "reuse"):
+            # the caller keeps its request objects and uses the very same dicts again on a data set whose
+            # partitioned axes are one longer: -1 must then mean the new last element
+            case["reuse_on_longer"] = True
         return case
     # with split_independent_axes pipefunc chooses the axes itself; it is asked for only where no root axis is
     # reduced anywhere, so that a refusal cannot be a legitimate "reduced axis" rejection
@@ -434,12 +438,13 @@ def _run_parts(case, w, ref, folder, process, V, probes, w_full=None):
         storage = next(iter(storage.values()))  # per-output storage dicts are keyed by outputs that may not run
     seen_calls = collections.Counter()
     done = []
+    requests = [_fx(part) for part in case["parts"]]  # the caller's own request objects
     for pi, part in enumerate(case["parts"]):
-        def go(sim, part=part):
+        def go(sim, part=part, pi=pi):
             p = build_pipeline(w_full)
             executor, parallel = C.make_executor(sim, cfg["executor"])
             res = p.map(build_inputs(w), run_folder=folder, parallel=parallel, executor=executor,
-                        storage=storage, fixed_indices=_fx(part), cleanup=False, persist_memory=True,
+                        storage=storage, fixed_indices=requests[pi], cleanup=False, persist_memory=True,
                         show_progress=bool(cfg.get("show_progress")), **map_kwargs(w), **extra)
             masks = {}
             for o in all_outputs(w):
@@ -507,6 +512,45 @@ def _run_parts(case, w, ref, folder, process, V, probes, w_full=None):
         V("parts", "stored-data-differs-from-whole-run", {"output": bad, "got": repr(L[bad])[:300], "ref": repr(ref.R0[bad])[:300]})
     if sum(seen_calls.values()) == sum(ref.C0.values()):
         probes["all_elements_exactly_once"] = 1
+    if case.get("reuse_on_longer") and not extra:
+        _reuse_requests(case, w, requests, folder + "-longer", process, V, probes, storage, cfg)
+
+
+def _reuse_requests(case, w, requests, folder2, process, V, probes, storage, cfg):
+    """Second use of the same request dicts on a data set whose partitioned axes are one element longer."""
+    from pipefunc.map._storage_array._base import StorageBase
+
+    w2 = copy.deepcopy(w)
+    for a in {a for part in case["parts"] for a in part}:
+        w2["indices"][a] += 1
+    ref2 = c05.reference(w2)
+    if ref2.error is not None:
+        return
+    done = []
+    for pi, part in enumerate(case["parts"]):
+        def go(sim, pi=pi):
+            p = build_pipeline(w2)
+            res = p.map(build_inputs(w2), run_folder=folder2, parallel=False, storage=storage, fixed_indices=requests[pi],
+                        cleanup=False, persist_memory=True, **map_kwargs(w2))
+            return {o: np.asarray(np.ma.getdata(res[o].store.mask)).astype(bool) for o in all_outputs(w2)
+                    if isinstance(res[o].store, StorageBase)}
+
+        masks, err, _sim = process(go)
+        if err is not None:
+            if isinstance(err, IndexError):
+                return  # an explicit index of the first data set can be out of range... not for a longer axis, but be safe
+            V("parts", f"reused-request-raised:{type(err).__name__}", {"part": part, "exc": repr(err)[:300]}, {"frame": _frame(err)})
+            return
+        done.append(part)
+        for o, (shape, sel) in _masks_expected(w2, done).items():
+            if o not in masks:
+                continue
+            got = {tuple(int(x) for x in e) for e in np.ndindex(*shape) if not masks[o][e]}
+            if got != sel:
+                V("parts", "reused-request-selects-other-elements", {"part": part, "output": o, "present": sorted(got)[:10],
+                                                                    "expected": sorted(sel)[:10]})
+                return
+    probes["requests_reused_on_longer_axis"] = 1
 
 
 def _run_learners(case, w, ref, folder, process, V, probes, tape):
